@@ -53,6 +53,7 @@ class Engine:
         self.sat = self.unsat = self.unknown = 0
         self.solver_time = 0.0
         self.pc = []
+        self.decided = {}
         self.symbolic = False
         self.decisions = 0
         self.max_paths = 4096
@@ -84,6 +85,8 @@ class Engine:
         self.solver.set("timeout", self.timeout_ms)
         self.inputs = {}
         self.fresh = 0
+        self.decided = {}
+        self._keep = []
 
     def add(self, c):
         self.pc.append(c)
@@ -96,6 +99,17 @@ class Engine:
             return True
         if z3.is_false(cond):
             return False
+        # a condition already decided on this path keeps its value (no query, no trail entry)
+        neg = z3.is_not(cond)
+        key = (cond.arg(0) if neg else cond).get_id()
+        known = self.decided.get(key)
+        if known is not None:
+            return (not known) if neg else known
+        v = self._decide(cond)
+        self.decided[key] = (not v) if neg else v
+        return v
+
+    def _decide(self, cond):
         if self.pos < _real_len(self.trail):
             v = self.trail[self.pos][0]
         else:
@@ -258,7 +272,6 @@ def mkint(t, lo, hi):
         raise Inconclusive("width bound exceeded (W=%d)" % W)
     if lo == hi:
         return lo
-    t = z3.simplify(t)
     if z3.is_bv_value(t):
         return t.as_signed_long()
     return SInt(t, lo, hi)
